@@ -353,6 +353,11 @@ class FuncScope(Scope, Location, Resolvable):
     def get_argument(self, ctx, arg):
         # type: (EvalCtx, ArgumentName) -> Object | None
         if arg.idx == [0] and isinstance(self.parent, ClassScope):
+            for d in getattr(self, 'decorator_list', ()):
+                v = ctx.evaluate(d)
+                if isinstance(v, RuntimeName) and v.is_builtin and v.name == 'staticmethod':
+                    # the first parameter of a static method is an ordinary argument
+                    return None
             return self.parent.resolve(ctx).call(ctx)
         return None
 
